@@ -58,7 +58,7 @@ def quality_matches(what, got):
 # generators
 
 NAMES = ["Anton", "Berta", "Çağla", "Dörte", "Émile", "Fatima", "Günther", "Hồ", "Ines", "João", "Καλλιόπη", "李"]
-FAMILY = ["Administrator", "Beispiel", "Çelik", "Müller-Lüdenscheidt", "O'Neill", "ß", "Zimmermann", "García"]
+FAMILY = ["Administrator", "Beispiel", "Çelik", "Müller-Lüdenscheidt", "O'Neill", "ß", "Zimmermann", "García", "\"Hansi\" Meier", "Back\\slash", "{Klammer}"]
 NRS = ["1", "2", "10", "α", "A1", "3b", "11", "Ω-2", "9", "12", "100", "ζ", "1a", "20", "", "07", "7", "0", "0.5", "-1", ".5", " 7", "*", "00"]
 
 
@@ -367,15 +367,19 @@ def gen_simple(r, rooms_mode=1, big=False):
         mx = r.choice({0: [3, 4, 6, 8, 10], 2: [0, 1, 1, 2, 2], 3: [0, 0, 1, 2, 4]}.get(shape, [0, 1, 2, 2, 3, 4, 6]))
         mn = (r.choice([0, 0, 1, 1, 2]) if shape == 0 else (mx if r.random() < 0.2 else r.randint(0, mx)))
         mn = min(mn, mx)
-        c = {"name": r.choice(["Kurs", "Çay", "Ωmega", "Tanz"]) + f" {i}", "num_max": mx, "num_min": mn, "instructors": []}
+        c = {"name": r.choice(["Kurs", "Çay", "Ωmega", "Tanz", "Mac's \"Kurs\"", "C:\\Kurs"]) + f" {i}", "num_max": mx, "num_min": mn, "instructors": []}
         if r.random() < 0.5:
-            c["room_factor"] = r.choice([1.0, 1.5, 2.0, 2.5, 0.5, 1.2])
+            # incl. courses that need no room at all (factor 0: an outdoor course still takes place)
+            c["room_factor"] = r.choice([1.0, 1.5, 2.0, 2.5, 0.5, 1.2, 0.0, 0.25])
         if r.random() < 0.4:
             c["room_offset"] = r.choice([0.0, 1.0, 2.5, 0.5])
         if r.random() < 0.2:
             c["fixed_course"] = True
         if r.random() < 0.25:
             c["hidden_participant_names"] = [r.choice(NAMES) + " (hidden)" for _ in range(r.randint(1, 3))]
+            if r.random() < 0.3:
+                # two different people of the same name
+                c["hidden_participant_names"].append(c["hidden_participant_names"][0])
         courses.append(c)
     parts = []
     for i in range(np_):
@@ -1011,7 +1015,7 @@ def lines_cli_simple(cases, workdir, stream, binary):
 # --------------------------------------------------------------------------------------------------
 # stream: cli-malformed (C15)
 
-SIMPLE_CORRUPTIONS = ["choice-oob", "instr-oob", "instr-eq-len", "min>max", "no-participants", "no-courses", "part-not-list", "choice-str", "neg-penalty",
+SIMPLE_CORRUPTIONS = ["choice-oob", "instr-oob", "instr-oob-twice", "instr-eq-len", "min>max", "no-participants", "no-courses", "part-not-list", "choice-str", "neg-penalty",
                      "no-name", "no-num-max", "num-max-str", "instr-str", "factor-str", "fixed-int", "course-null", "penalty-float", "choice-missing-course",
                      "huge-index", "neg-index", "top-array", "hidden-not-list"]
 
@@ -1023,6 +1027,9 @@ def corrupt_simple(r, doc, what=None):
         r.choice(ps)["choices"].append({"course": len(cs) + r.randint(0, 2), "penalty": 0})
     elif what == "instr-oob":
         r.choice(cs)["instructors"].append(len(ps) + r.randint(1, 3))
+    elif what == "instr-oob-twice":
+        c = r.choice(cs); k = len(ps) + r.randint(0, 3)
+        c["instructors"] += [k, k]
     elif what == "instr-eq-len":
         r.choice(cs)["instructors"].append(len(ps))
     elif what == "min>max":
@@ -1151,7 +1158,7 @@ def stream_cli_malformed(seed, tier, workdir, stream):
             cases.append(gen_rooms_input(r))
         if b % 2 == 0:
             for w in ["threads-0", "rooms-garbage", "rooms-empty-item", "rooms-neg", "rooms-file-missing", "rooms-file-garbage", "rooms-file-wrong-shape",
-                      "both-rooms", "threads-neg", "threads-str", "track-str", "input-missing"]:
+                      "both-rooms", "threads-neg", "threads-str", "threads-2^32", "threads-2^33", "threads-huge", "track-str", "input-missing"]:
                 doc, rooms = gen_simple(r, rooms_mode=0)
                 cases.append({"kind": "option", "doc": doc, "what": w})
             for w in ["empty", "truncated", "binary", "not-json", "nested-deep", "bom"]:
@@ -1208,6 +1215,9 @@ def lines_cli_malformed(cases, workdir, stream, binary):
                     args = ["--num-threads=-1", inp, outp]; allowed = {2}
                 elif w == "threads-str":
                     args = ["--num-threads", "many", inp, outp]; allowed = {2}
+                elif w in ("threads-2^32", "threads-2^33", "threads-huge"):
+                    # does not fit the worker count's type: refused, never truncated to some other count
+                    args = ["--num-threads", {"threads-2^32": "4294967296", "threads-2^33": "8589934592", "threads-huge": "99999999999999999999"}[w], inp, outp]; allowed = {2, 64}
                 elif w == "track-str":
                     args = ["--cde", "--track", "three", inp, outp]; allowed = {65}
                 elif w == "input-missing":
